@@ -304,6 +304,13 @@ func (g treeGen) decodeInput(typ string) any {
 	r := g.ctx.Rng
 	keys := []string{"A", "b", "k.1", "host", "x-y", "K", ""}
 	switch typ {
+	case "ShellCommand":
+		switch v := g.decodeInput("StringList").(type) {
+		case string:
+			return []any{v}
+		default:
+			return v
+		}
 	case "StringList", "StringOrNumberList", "HealthCheckTest":
 		switch r.Intn(4) {
 		case 0:
